@@ -29,6 +29,9 @@ BF_NAMES = ['mvdr_souden', 'gev', 'gev+ban', 'rank1_pca+mvdr_souden', 'rank1_gev
             'rank1_pca+gev', 'rank1_gev+gev', 'wmwf', 'rank1_pca+wmwf', 'rank1_gev+wmwf']
 
 
+_SC = [0]
+
+
 def make_scene(rng, tier):
     K = int(rng.integers(2, 4))
     D = int(rng.integers(K + 1, 9))
@@ -74,9 +77,20 @@ def make_scene(rng, tier):
         nz = rng.random((K, T))
         g = (1 - blur) * onehot + blur * nz / nz.sum(0, keepdims=True)
         init[f] = g[perm[f]]
+    # the class order of the start is arbitrary as a whole too: the oracle alignment has a non-trivial permutation to undo
+    init = init[:, rng.permutation(K)]
     metric = str(rng.choice(['cos', 'cos', 'euclidean', 'multiply']))       # every similarity metric the aligner documents
+    _SC[0] += 1
+    # recording level: the scene is defined up to its level (quiet / loud recordings, integer PCM scale)
+    level = [1.0, 1e-4, 1.0, 3e4][_SC[0] % 4]
+    y, images, noise = y * level, images * level, noise * level
+    # global alignment as in examples/mixture_model_example.ipynb (masked observation against the source images, complex)
+    # or on the masks themselves
+    oracle = ['masks', 'signals'][_SC[0] % 2]
+    # one aligner object serves several recordings (here: a recording with another STFT size came first)
+    reuse_aligner = _SC[0] % 3 == 0
     return {'y': y, 'images': images, 'noise': noise, 'lab': lab, 'init': init, 'plan': plan, 'perm': perm,
-            'K': K, 'D': D, 'F': F, 'T': T, 'metric': metric}
+            'K': K, 'D': D, 'F': F, 'T': T, 'metric': metric, 'level': level, 'oracle': oracle, 'reuse_aligner': reuse_aligner}
 
 
 def run_chain(sc, model_name, iterations=20):
@@ -87,13 +101,29 @@ def run_chain(sc, model_name, iterations=20):
     model, _ = mm.fit(model_name, data, init, iterations=iterations)
     post = mm.predict(model_name, model, data)                   # (F, K, T)
     mask = np.transpose(post, (1, 0, 2))                         # (K, F, T)
-    dhtv = DHTVPermutationAlignment(main_iterations=20, sub_iterations=2, similarity_metric=sc.get('metric', 'cos'), **sc['plan'])
+    if sc.get('reuse_aligner'):
+        F0 = 17
+        dhtv = DHTVPermutationAlignment(main_iterations=20, sub_iterations=2, similarity_metric=sc.get('metric', 'cos'),
+                                        stft_size=2 * (F0 - 1), segment_start=2, segment_width=9, segment_shift=3)
+        r0 = np.random.default_rng(F * T)
+        m0 = r0.random((K, F0, 12))
+        dhtv.calculate_mapping(m0 / m0.sum(0, keepdims=True))
+        for k_, v_ in sc['plan'].items():
+            setattr(dhtv, k_, v_)
+    else:
+        dhtv = DHTVPermutationAlignment(main_iterations=20, sub_iterations=2, similarity_metric=sc.get('metric', 'cos'), **sc['plan'])
     mapping = dhtv.calculate_mapping(mask)
     aligned = dhtv.apply_mapping(mask, mapping)
-    ref = np.broadcast_to(np.eye(K)[sc['lab']].T[:, None, :], (K, F, T))
     oracle = OraclePermutationAlignment()
-    gmap = oracle.calculate_mapping(aligned.reshape(K, 1, F * T), ref.reshape(K, 1, F * T))
-    final = oracle.apply_mapping(aligned.reshape(K, 1, F * T), gmap).reshape(K, F, T)
+    if sc.get('oracle') == 'signals':
+        est = (aligned * y[None, :, :, 0]).reshape(K, F * T)
+        refsig = np.asarray(sc['images'])[:, :, :, 0].reshape(K, F * T)
+        gperm = oracle.calculate_mapping(est, refsig)
+        final = aligned[np.asarray(gperm).reshape(-1)]
+    else:
+        ref = np.broadcast_to(np.eye(K)[sc['lab']].T[:, None, :], (K, F, T))
+        gmap = oracle.calculate_mapping(aligned.reshape(K, 1, F * T), ref.reshape(K, 1, F * T))
+        final = oracle.apply_mapping(aligned.reshape(K, 1, F * T), gmap).reshape(K, F, T)
     return model, post, mapping, aligned, final
 
 
@@ -189,7 +219,7 @@ def make(rng, tier, model=None):
     names = list(BF_NAMES) if tier == 'thorough' else [BF_NAMES[int(i)] for i in rng.permutation(len(BF_NAMES))[:5]]
     bf_eig = {bf: bool(rng.random() < 0.4) for bf in names if 'gev' in bf}
     rp = {'model': name, 'scene': sc, 'bf_names': names, 'bf_eig': bf_eig}
-    label = 'scene %s K=%d D=%d F=%d T=%d metric=%s plan=%s use_eig=%s' % (name, sc['K'], sc['D'], sc['F'], sc['T'], sc['metric'], sc['plan'],
+    label = 'scene %s K=%d D=%d F=%d T=%d level=%g oracle=%s reuse_aligner=%s metric=%s plan=%s use_eig=%s' % (name, sc['K'], sc['D'], sc['F'], sc['T'], sc['level'], sc['oracle'], sc['reuse_aligner'], sc['metric'], sc['plan'],
                                                                         sorted(b for b, v in bf_eig.items() if v))
     fail, key, coq = evaluate(rp, rng)
     nt = bool((sc['perm'] != sc['perm'][0]).any())
